@@ -41,6 +41,11 @@ fn main() {
                 let d = sc.to_json();
                 (vh::engine::flood::run_flood(&sc), d)
             }
+            "window" => {
+                let sc = vh::engine::window::gen_window(seed);
+                let d = sc.to_json();
+                (vh::engine::window::run_window(&sc), d)
+            }
             other => panic!("unknown family {}", other),
         };
         let nt = out.stats.get("catalogue.applied") > 0 || out.stats.get("nontrivial") > 0;
